@@ -400,8 +400,12 @@ def wipe (h : Heap) : Nat → Option Nat → Heap
     let h1 := setKids (setNe (setPe (setNs (setPs (setParent h e none) e none) e none) e none) e none) e []
     wipe h1 f nxt
 
-/-- `decompose()` (element.py:635-655) -/
+/-- `decompose()` (element.py:635-655). `excluded`: `decompose()` of a BeautifulSoup object that stands outside
+    the element chain (`soup.next_element is None`, the state right after parsing) wipes only the object itself and
+    leaves its children pointing at it — the Python does exactly that; a decomposed tree must never be used again,
+    so this is outside the properties and the model does not claim consistency there. -/
 def decompose (h : Heap) (x : Nat) : Except Err Heap :=
+  if h.kind x = .soup ∧ h.ne x = none ∧ ¬ (h.kids x).isEmpty then .error .excluded else
   match extract h x with
   | .error e => .error e
   | .ok h1 => .ok (wipe h1 h1.cap (some x))
